@@ -26,16 +26,16 @@ Section NodeInd.
     end.
 End NodeInd.
 
-Definition elem_of (q : eid) (par : option eid) (pname : option str) (nextnl : bool) (t : node) : elem :=
+Definition elem_of (q : eid) (par : option eid) (pname : option str) (t : node) : elem :=
   match t with
-  | NStr c s => mkel q par (BStr c s pname nextnl)
+  | NStr c s => mkel q par (BStr c s pname)
   | NTag p ks => mkel q par (BTag p (length ks))
   end.
 
 (* ---- the bracket sequence ---- *)
-Fixpoint brackets (q : eid) (par : option eid) (pname : option str) (nextnl : bool) (t : node) : list event :=
+Fixpoint brackets (q : eid) (par : option eid) (pname : option str) (t : node) : list event :=
   match t with
-  | NStr c s => [mkev KString (mkel q par (BStr c s pname nextnl))]
+  | NStr c s => [mkev KString (mkel q par (BStr c s pname))]
   | NTag p ks =>
       let el := mkel q par (BTag p (length ks)) in
       if is_empty_element p (length ks) then [mkev KEmpty el]
@@ -43,20 +43,20 @@ Fixpoint brackets (q : eid) (par : option eid) (pname : option str) (nextnl : bo
            (fix go (i : nat) (l : list node) : list event :=
               match l with
               | [] => []
-              | k :: l' => brackets (q ++ [i]) (Some q) (Some (g_name p)) (starts_nl l') k ++ go (S i) l'
+              | k :: l' => brackets (q ++ [i]) (Some q) (Some (g_name p)) k ++ go (S i) l'
               end) 0%nat ks
            ++ [mkev KEnd el]
   end.
 Fixpoint brackets_kids (q : eid) (pname : str) (i : nat) (l : list node) : list event :=
   match l with
   | [] => []
-  | k :: l' => brackets (q ++ [i]) (Some q) (Some pname) (starts_nl l') k ++ brackets_kids q pname (S i) l'
+  | k :: l' => brackets (q ++ [i]) (Some q) (Some pname) k ++ brackets_kids q pname (S i) l'
   end.
 
 (* ---- plain rendering ---- *)
-Fixpoint plain (enc : bool) (f : fmt) (pname : option str) (nextnl : bool) (t : node) : list str :=
+Fixpoint plain (enc : bool) (f : fmt) (pname : option str) (t : node) : list str :=
   match t with
-  | NStr c s => [output_ready f c s pname nextnl]
+  | NStr c s => [output_ready f c s pname]
   | NTag p ks =>
       let n := length ks in
       if is_empty_element p n then [format_tag enc f p n true]
@@ -64,14 +64,14 @@ Fixpoint plain (enc : bool) (f : fmt) (pname : option str) (nextnl : bool) (t : 
            (fix go (l : list node) : list str :=
               match l with
               | [] => []
-              | k :: l' => plain enc f (Some (g_name p)) (starts_nl l') k ++ go l'
+              | k :: l' => plain enc f (Some (g_name p)) k ++ go l'
               end) ks
            ++ [format_tag enc f p n false]
   end.
 Fixpoint plain_kids (enc : bool) (f : fmt) (pname : str) (l : list node) : list str :=
   match l with
   | [] => []
-  | k :: l' => plain enc f (Some pname) (starts_nl l') k ++ plain_kids enc f pname l'
+  | k :: l' => plain enc f (Some pname) k ++ plain_kids enc f pname l'
   end.
 
 (* ---- pretty-printed rendering ---- *)
@@ -84,9 +84,9 @@ Definition deco (f : fmt) (is_str : bool) (piece : str) (lv : Z) (before after :
   | _ => indent_string f pc lv before after
   end.
 
-Fixpoint pretty (enc : bool) (f : fmt) (lv : Z) (pname : option str) (nextnl : bool) (t : node) : list str :=
+Fixpoint pretty (enc : bool) (f : fmt) (lv : Z) (pname : option str) (t : node) : list str :=
   match t with
-  | NStr c s => [deco f true (output_ready f c s pname nextnl) lv true true]
+  | NStr c s => [deco f true (output_ready f c s pname) lv true true]
   | NTag p ks =>
       let n := length ks in
       if is_empty_element p n then [deco f false (format_tag enc f p n true) lv true true]
@@ -95,7 +95,7 @@ Fixpoint pretty (enc : bool) (f : fmt) (lv : Z) (pname : option str) (nextnl : b
         (fix go (l : list node) : list str :=
            match l with
            | [] => []
-           | k :: l' => pretty enc f (lv + 1) (Some (g_name p)) (starts_nl l') k ++ go l'
+           | k :: l' => pretty enc f (lv + 1) (Some (g_name p)) k ++ go l'
            end) ks
         ++ [deco f false (format_tag enc f p n false) lv true true]
       else
@@ -108,15 +108,15 @@ Fixpoint pretty (enc : bool) (f : fmt) (lv : Z) (pname : option str) (nextnl : b
 Fixpoint pretty_kids (enc : bool) (f : fmt) (lv : Z) (pname : str) (l : list node) : list str :=
   match l with
   | [] => []
-  | k :: l' => pretty enc f lv (Some pname) (starts_nl l') k ++ pretty_kids enc f lv pname l'
+  | k :: l' => pretty enc f lv (Some pname) k ++ pretty_kids enc f lv pname l'
   end.
 
 (* what decode(indent_level) returns, piece by piece *)
-Definition render_node (enc : bool) (f : fmt) (level : option Z) (pname : option str) (nextnl : bool) (t : node)
+Definition render_node (enc : bool) (f : fmt) (level : option Z) (pname : option str) (t : node)
   : list str :=
   match level with
-  | None => plain enc f pname nextnl t
-  | Some lv => pretty enc f lv pname nextnl t
+  | None => plain enc f pname t
+  | Some lv => pretty enc f lv pname t
   end.
 Definition render_kids (enc : bool) (f : fmt) (level : option Z) (pname : str) (l : list node) : list str :=
   match level with
@@ -126,7 +126,7 @@ Definition render_kids (enc : bool) (f : fmt) (level : option Z) (pname : str) (
 Definition render_spec (enc : bool) (f : fmt) (level : option Z) (t : node) : list str :=
   match t with
   | NTag p ks => if g_hidden p then render_kids enc f level (g_name p) ks
-                 else render_node enc f level None false t
+                 else render_node enc f level None t
   | NStr _ _ => []
   end.
 Definition render_contents_spec (enc : bool) (f : fmt) (level : option Z) (t : node) : list str :=
@@ -141,9 +141,9 @@ Definition render_contents_spec (enc : bool) (f : fmt) (level : option Z) (t : n
 Record item := mkitem { it_depth : Z; it_block : bool; it_text : str }.
 Definition nonblank (s : str) : list str := match s with [] => [] | _ => [s] end.
 Definition simple_items (lv : Z) (s : str) : list item := map (mkitem lv false) (nonblank s).
-Fixpoint items (enc : bool) (f : fmt) (lv : Z) (pname : option str) (nextnl : bool) (t : node) : list item :=
+Fixpoint items (enc : bool) (f : fmt) (lv : Z) (pname : option str) (t : node) : list item :=
   match t with
-  | NStr c s => simple_items lv (strip (output_ready f c s pname nextnl))
+  | NStr c s => simple_items lv (strip (output_ready f c s pname))
   | NTag p ks =>
       let n := length ks in
       if is_empty_element p n then simple_items lv (format_tag enc f p n true)
@@ -152,20 +152,20 @@ Fixpoint items (enc : bool) (f : fmt) (lv : Z) (pname : option str) (nextnl : bo
         (fix go (l : list node) : list item :=
            match l with
            | [] => []
-           | k :: l' => items enc f (lv + 1) (Some (g_name p)) (starts_nl l') k ++ go l'
+           | k :: l' => items enc f (lv + 1) (Some (g_name p)) k ++ go l'
            end) ks
         ++ simple_items lv (format_tag enc f p n false)
       else
-        [mkitem lv true (concat (plain enc f pname nextnl t))]
+        [mkitem lv true (concat (plain enc f pname t))]
   end.
 Fixpoint items_kids (enc : bool) (f : fmt) (lv : Z) (pname : str) (l : list node) : list item :=
   match l with
   | [] => []
-  | k :: l' => items enc f lv (Some pname) (starts_nl l') k ++ items_kids enc f lv pname l'
+  | k :: l' => items enc f lv (Some pname) k ++ items_kids enc f lv pname l'
   end.
 Definition items_spec (enc : bool) (f : fmt) (t : node) : list item :=
   match t with
-  | NTag p ks => if g_hidden p then items_kids enc f 0 (g_name p) ks else items enc f 0 None false t
+  | NTag p ks => if g_hidden p then items_kids enc f 0 (g_name p) ks else items enc f 0 None t
   | NStr _ _ => []
   end.
 (* an item on its line: indent * depth, the text, a newline *)
@@ -173,7 +173,7 @@ Definition line (f : fmt) (it : item) : str :=
   repeat_str (f_indent f) (Z.to_nat (it_depth it)) ++ it_text it ++ [nl_].
 
 (* the plain renderings of the outermost whitespace-preserving elements, in document order *)
-Fixpoint pw_blocks (enc : bool) (f : fmt) (pname : option str) (nextnl : bool) (t : node) : list str :=
+Fixpoint pw_blocks (enc : bool) (f : fmt) (pname : option str) (t : node) : list str :=
   match t with
   | NStr _ _ => []
   | NTag p ks =>
@@ -182,19 +182,19 @@ Fixpoint pw_blocks (enc : bool) (f : fmt) (pname : option str) (nextnl : bool) (
         (fix go (l : list node) : list str :=
            match l with
            | [] => []
-           | k :: l' => pw_blocks enc f (Some (g_name p)) (starts_nl l') k ++ go l'
+           | k :: l' => pw_blocks enc f (Some (g_name p)) k ++ go l'
            end) ks
-      else [concat (plain enc f pname nextnl t)]
+      else [concat (plain enc f pname t)]
   end.
 Fixpoint pw_blocks_kids (enc : bool) (f : fmt) (pname : str) (l : list node) : list str :=
   match l with
   | [] => []
-  | k :: l' => pw_blocks enc f (Some pname) (starts_nl l') k ++ pw_blocks_kids enc f pname l'
+  | k :: l' => pw_blocks enc f (Some pname) k ++ pw_blocks_kids enc f pname l'
   end.
 
 Definition pw_blocks_spec (enc : bool) (f : fmt) (t : node) : list str :=
   match t with
-  | NTag p ks => if g_hidden p then pw_blocks_kids enc f (g_name p) ks else pw_blocks enc f None false t
+  | NTag p ks => if g_hidden p then pw_blocks_kids enc f (g_name p) ks else pw_blocks enc f None t
   | NStr _ _ => []
   end.
 
